@@ -278,10 +278,20 @@ def check_placeholders(ctx: Ctx) -> None:
            "text_wrapping.py")
     # the placeholder is built the same way on both sides: what the extraction callback returns and what restore searches
     # for are compared as string templates (constants folded, the index a hole), through helpers and temporaries
+    from .callback import callback_of, group_index
+
+    ext_cbs = []
+    for n_, c_ in prog.flow(ext).all_calls():
+        if isinstance(c_.func, ast.Attribute) and c_.func.attr == "sub":
+            cb_ = callback_of(prog, ext, c_)
+            if cb_ is not None:
+                ext_cbs.append(cb_)
+    if not ext_cbs:
+        raise AnalysisError("replacement callback of the atomic-construct extraction not found")
     ext_t: set = set()
-    for cb in [f for f in ext.local_defs.values() if isinstance(f, FuncInfo)]:
-        for r in prog.flow(cb).cfg.returns():
-            ext_t.add(str_template(prog, cb, r.ast.value, r))
+    for cb_ in ext_cbs:
+        for r in prog.flow(cb_.func).cfg.returns():
+            ext_t.add(str_template(prog, cb_.func, r.ast.value, r))
     res_t: set = set()
     seen_f: set[str] = set()
     work = [res]
@@ -310,11 +320,15 @@ def check_placeholders(ctx: Ctx) -> None:
     ctx.ob("R-LOSSLESS-L5", f"{ext.qual} :: one pass over ATOMIC_CONSTRUCT_PATTERN", ok,
            "constructs are extracted by a single sub() over the combined pattern (nested re-extraction would corrupt placeholders)", where(ext, ext.node))
     # the callback stores the whole match
-    cbs = [f for f in ext.local_defs.values() if isinstance(f, FuncInfo)]
-    for cb in cbs:
-        stores = [n for n in ast.walk(cb.node) if isinstance(n, ast.Assign) and isinstance(n.targets[0], ast.Subscript)]
-        ok = any("group(0)" in norm(s.value) or _is_group0(cb, s.value) for s in stores)
-        ctx.ob("R-LOSSLESS-L5", f"{cb.qual} :: stores the whole match", ok, "the map must hold match.group(0) (the construct verbatim)", where(cb, cb.node))
+    for cb_ in ext_cbs:
+        cbf = cb_.func
+        cflow = prog.flow(cbf)
+        ok = False
+        for n_ in cflow.cfg.nodes:
+            if n_.kind == "stmt" and isinstance(n_.ast, ast.Assign) and isinstance(n_.ast.targets[0], ast.Subscript):
+                if group_index(prog, cbf, n_.ast.value, n_, cb_.mparam) == 0:
+                    ok = True
+        ctx.ob("R-LOSSLESS-L5", f"{cbf.qual} :: stores the whole match", ok, "the map must hold match.group(0) (the construct verbatim)", where(cbf, cbf.node))
 
 
 def str_template(prog, fi: FuncInfo, expr: ast.AST | None, node: Node, depth: int = 0):
